@@ -96,12 +96,12 @@ std::string op_mapcat(line_t const &L)
             FWD(c),
             [&idx, &L](auto &&e)
             {
-              static_assert(std::is_lvalue_reference_v<decltype(e)>);
+              auto &&x{take(FWD(e))};
               std::vector<T> out;
               int const k{L.par.at(idx++)};
-              e.read();
+              x.read();
               for (int j = 1; j <= k; ++j)
-                out.push_back(e.derive(j));
+                out.push_back(x.derive(j));
               return out;
             });
       })};
@@ -126,10 +126,10 @@ std::string op_mapopt(line_t const &L)
             FWD(c),
             [&idx, &L](auto &&e)
             {
-              static_assert(std::is_lvalue_reference_v<decltype(e)>);
+              auto &&x{take(FWD(e))};
               int const k{L.par.at(idx++)};
-              e.read();
-              return k != 0 ? fcppt::optional::object<T>{e.derive(1)} : fcppt::optional::object<T>{};
+              x.read();
+              return k != 0 ? fcppt::optional::object<T>{x.derive(1)} : fcppt::optional::object<T>{};
             });
       })};
   event_log const log{g_log};
